@@ -42,6 +42,7 @@ let spec input obs_s =
     if not (SyncSpec.spec_forbidden_absent sc.hist.forbidden rows) then fail "forbidden-stored" "a forbidden hash is in the headers table";
     Stdlib.List.iter (fun (i, code) -> if code <> 404 then fail "forbidden-served" (Printf.sprintf "GET header %d -> %d" i code)) o.http;
     if not (SyncSpec.spec_desc_orphan sc.hist.forbidden rows) then fail "forbidden-descendant-not-orphan" "";
+    if not (SyncSpec.spec_desc_orphan_all sc.hist.forbidden rows) then fail "forbidden-descendant-not-orphan" "(at depth >= 2)";
     (* the trace *)
     let is_x = sc.eng = "x" in
     let next_of st = if is_x then (match st with h :: _ -> int_of_string h | [] -> -1)
